@@ -56,6 +56,7 @@ class C05(OutstationProp):
         waiting = False       # in a solicited confirm wait
         for op, t, lines in steps:
             step_tx = [b for (_, _, b) in txs(lines)]
+            step_sol = [b for b in step_tx if len(b) >= 2 and b[1] == 129]
             if op[0] == "disconnect":
                 prev = None; waiting = False
             if op[0] == "rx":
@@ -70,16 +71,16 @@ class C05(OutstationProp):
                             executed = [c for c in cbs(lines) if c[0] in EXEC_CBS]
                             if executed:
                                 fails.append(("repeat-reexecuted", "a repeated non-READ request (function %d) was executed again: %s" % (b[1], executed[0][:3])))
-                            if prev[2] and step_tx[:1] != prev[2][-1:]:
+                            if prev[2] and step_sol[:1] != prev[2][:1]:
                                 fails.append(("repeat-reply-differs", "reply to a repeated request differs from the response sent before: %s vs %s"
-                                              % (step_tx[0].hex() if step_tx else "nothing", prev[2][-1].hex())))
+                                              % (step_sol[0].hex() if step_sol else "nothing", prev[2][0].hex())))
                         elif waiting and step_tx:
                             for x in step_tx:
                                 if x not in all_tx:
                                     fails.append(("resend-is-mixture", "the echo of a READ repeated during the confirm wait is not a fragment sent before: " + x.hex()[:60]))
-                        prev = (b, frm, prev[2] if not step_tx else step_tx)
+                        prev = (b, frm, prev[2] if not step_sol else step_sol)
                     else:
-                        prev = (b, frm, step_tx)
+                        prev = (b, frm, step_sol)
             # unsolicited retries must be identical to the response sent before
             for l in lines:
                 tk = l.split()
